@@ -44,6 +44,21 @@ def showV : V → String
   | .emptyList => "invalid-emptylist"
   | .notAllowed => "invalid-notallowed"
 
+/-- size of the byte string the harness writes for a content token "<id>x<n>": the token text, ':' and
+    padding up to n bytes -/
+def sizeOfTok (cid : Nat) : Nat :=
+  let tok := strOfBytes (decName cid)
+  -- "?<n>": what is left of an over-long upload (n bytes)
+  if tok.startsWith "?" then (tok.drop 1).toString.toNat?.getD 0 else
+  let n := match (tok.splitOn "x").getLast? with
+    | some d => d.toNat?.getD 0
+    | none => 0
+  Nat.max n (decName cid).length.succ
+
+def mkCtx (password : Bytes) (declSize : Int) : Ctx :=
+  { pwOK := fun h p => h == p, password := password, declSize := declSize, sizeOf := sizeOfTok,
+    trunc := fun _ n => encName (bytesOfStr ("?" ++ toString n)) }
+
 def showErr : Err → String
   | .disabled => "disabled"
   | .pathRequired => "pathrequired"
@@ -53,6 +68,10 @@ def showErr : Err → String
   | .notDir => "notdir"
   | .notEmpty => "notempty"
   | .io => "io"
+  | .authRequired => "authrequired"
+  | .authFailed => "authfailed"
+  | .tooLarge => "toolarge"
+  | .tooLargeWritten => "toolarge"
 
 def sortStrs (l : List String) : List String := (l.toArray.qsort (· < ·)).toList
 
@@ -72,16 +91,19 @@ def contentTok (fs : FS) (i : Nat) : String :=
   | none => "?"
 
 /-- the answer line of one request, and the state afterwards -/
-def runLine (s : S) (op : Op) (pathHex nfcHex : String) : S × String :=
-  match bytesOfHex pathHex, bytesOfHex nfcHex with
-  | some praw, some pn =>
+def runLine (s : S) (op : Op) (pathHex nfcHex : String) (pwHex : String := "-") (decl : String := "-1") : S × String :=
+  match bytesOfHex pathHex, bytesOfHex nfcHex, bytesOfHex pwHex with
+  | some praw, some pn, some pw =>
     let path := unAt praw
     let nfc := mkNfc path (unAt pn)
-    let r := runOp nfc fuel s.cfg s.fs op path
+    let r := runOp (mkCtx pw (decl.toInt?.getD (-1))) nfc fuel s.cfg s.fs op path
     let s' := { s with fs := r.fs }
     match r.err with
     | some e =>
-      (s', "err " ++ showErr e ++ (match op, e with | .upload _, .io => " changed=" ++ showPaths r.touched | _, _ => ""))
+      (s', "err " ++ showErr e ++ (match op, e with
+        | .upload _, .io => " changed=" ++ showPaths r.touched
+        | .upload _, .tooLargeWritten => " changed=" ++ showPaths r.touched
+        | _, _ => ""))
     | none =>
       match op with
       | .download =>
@@ -106,14 +128,16 @@ def runLine (s : S) (op : Op) (pathHex nfcHex : String) : S × String :=
       | .delete _ =>
         -- what disappeared: the touched paths that no longer exist
         (s', "ok changed=" ++ showPaths (r.touched.filter (fun q => r.fs.lookup q ≠ s.fs.lookup q)))
-  | _, _ => (s, "bad-op")
+  | _, _, _ => (s, "bad-op")
 
 def step (s : S) (line : String) : S × String :=
   match tokens line with
-  | "reset" :: en :: _n :: pats =>
-    match pats.mapM bytesOfHex with
-    | some ps => ({ cfg := { enabled := en == "1", allowed := ps.map unAt }, fs := { ents := [], data := [], next := 1 } }, "ok")
-    | none => (s, "bad-op")
+  | "reset" :: en :: mx :: cpw :: _n :: pats =>
+    match pats.mapM bytesOfHex, bytesOfHex cpw with
+    | some ps, some h =>
+      ({ cfg := { enabled := en == "1", allowed := ps.map unAt, hash := h, maxSize := mx.toNat?.getD 0 },
+         fs := { ents := [], data := [], next := 1 } }, "ok")
+    | _, _ => (s, "bad-op")
   | ["pre", "dir", p] =>
     let (fs, ok) := mkdir s.fs fuel (parseTarget p).comps
     ({ s with fs := fs }, okStr ok)
@@ -133,12 +157,12 @@ def step (s : S) (line : String) : S × String :=
       let v := validatePath (mkNfc path (unAt pn)) s.cfg path
       (s, if v == .ok then "ok" else "err " ++ showV v)
     | _, _ => (s, "bad-op")
-  | ["dl", ph, nh] => runLine s .download ph nh
-  | ["ul", ph, nh, c] => runLine s (.upload (encName (bytesOfStr c))) ph nh
-  | ["ls", ph, nh] => runLine s .list ph nh
-  | ["st", ph, nh] => runLine s .stat ph nh
-  | ["cm", ph, nh] => runLine s .chmod ph nh
-  | ["rm", ph, nh, rec] => runLine s (.delete (rec == "1")) ph nh
+  | ["dl", ph, nh, pw] => runLine s .download ph nh pw
+  | ["ul", ph, nh, c, pw, decl] => runLine s (.upload (encName (bytesOfStr c))) ph nh pw decl
+  | ["ls", ph, nh, pw] => runLine s .list ph nh pw
+  | ["st", ph, nh, pw] => runLine s .stat ph nh pw
+  | ["cm", ph, nh, pw] => runLine s .chmod ph nh pw
+  | ["rm", ph, nh, rec, pw] => runLine s (.delete (rec == "1")) ph nh pw
   | _ => (s, "bad-op")
 
 /-! `spec`: the statement on the implementation's own answers.  The model state is advanced with the
@@ -163,7 +187,7 @@ def dirsListing (fs : FS) (names : String) : List String :=
 /-- Did the implementation let the request past `validatePath` (anything but a validation refusal)? -/
 def implAccepted (out : List String) : Bool :=
   match out with
-  | "err" :: cls :: _ => !(cls.startsWith "invalid-" || cls == "disabled" || cls == "pathrequired")
+  | "err" :: cls :: _ => !(cls.startsWith "invalid-" || cls == "disabled" || cls == "pathrequired" || cls == "authrequired" || cls == "authfailed")
   | "ok" :: _ => true
   | _ => false
 
@@ -177,6 +201,9 @@ def lexicalVerdict (s : S) (op : String) (implOut : String) : Option String :=
         let path := unAt praw
         if !implAccepted (tokens implOut) then none
         else if kind != "val" && !s.cfg.enabled then some "fail accepted-while-disabled"
+        else if kind != "val" && s.cfg.hash != [] &&
+            (let pwTok := (if kind == "ul" || kind == "rm" then (tokens op)[4]? else (tokens op)[3]?).getD "-"
+             (bytesOfHex pwTok).getD [] != s.cfg.hash) then some "fail accepted-without-password"
         else if validatePath (mkNfc path (unAt pn)) s.cfg path != .ok then some "fail accepted-invalid-path"
         else none
       | _, _ => none
@@ -208,7 +235,9 @@ def spec (s : S) (op : String) (implOut : String) : S × String :=
     match tokens op, tokens implOut with
     | "dl" :: _, ["ok", what] =>
       (match what.splitOn ":" with
-       | ["file", q, _] => if physAllowed s.cfg q then "ok" else readTag ++ q
+       | ["file", q, tok] =>
+         if s.cfg.maxSize > 0 && sizeOfTok (encName (bytesOfStr tok)) > s.cfg.maxSize then "fail oversize-download " ++ q
+         else if physAllowed s.cfg q then "ok" else readTag ++ q
        | ["dir", q] => if physAllowed s.cfg q then "ok" else readTag ++ q
        | _ => "ok")
     | "ls" :: _, ["ok", names] =>
